@@ -1303,6 +1303,29 @@ func (b *cliBins) runCase(c *cliCfg, dir string, driver string) Case {
 			}
 		}
 		cs.Probes = append(cs.Probes, Probe{Kind: "direct", Rel: "C14 exit 0 iff the documents are Equal under the options, 1 otherwise", Want: w})
+		if !c.Color && !c.Git && !c.Yaml {
+			// the first clause, without the model in between: what the binary emitted is what the library
+			// renders for the options these flags denote (keys trimmed, Precision last)
+			o := cliOpts(c)
+			if c.Prec != "" {
+				if pv, err := strconv.ParseFloat(c.Prec, 64); err == nil {
+					o = append(o, OptItem{Kind: "P", Prec: pv})
+				}
+			}
+			want := cliDiffText(pe.plan.V1, o, c.F, docA, docB)
+			got := pe.obs.Stdout
+			if pe.obs.Outfile != nil {
+				got = *pe.obs.Outfile
+			}
+			w2 := "ok"
+			if got != want {
+				w2 = fmt.Sprintf("fail %s emitted %q but the library renders %q for these options", c.cmdline(), got, want)
+				if k := cliKnownClass(c, pe.plan, docA, docB, true); k != "" {
+					w2 = "ok"
+				}
+			}
+			cs.Probes = append(cs.Probes, Probe{Kind: "direct", Rel: "C14 diff mode: the bytes emitted are the library's rendering for the options the flags denote", Want: w2})
+		}
 		if !c.Color {
 			cs.Probes = append(cs.Probes, b.roundTrip(c, pe, dir, driver, docA, docB, in1, in2)...)
 		}
@@ -1889,6 +1912,11 @@ func propC14(run *Run, n int) {
 	for i := range cfgs {
 		cfgs[i] = genCliCfg(r)
 	}
+	// a fixed matrix that does not depend on the seed: every binary x every spelling of -setkeys / -precision
+	// on documents where the option decides the output (the options must reach the library the same way in
+	// the three binaries)
+	cfgs = append(cliFixedMatrix(), cfgs...)
+	n = len(cfgs)
 	out := make([]Case, n)
 	var wg sync.WaitGroup
 	jobs := make(chan int)
@@ -1938,6 +1966,34 @@ func propC14(run *Run, n int) {
 	}
 	run.dist["process_runs"] = int(bins.runs)
 	run.Note(fmt.Sprintf("%d configurations, %d process runs of the real binaries", bins.cases, bins.runs))
+}
+
+func cliFixedMatrix() []*cliCfg {
+	a := VArr(VObj("id", VNum(1), "k", VNum(2), "v", VNum(1)), VObj("id", VNum(2), "k", VNum(1), "v", VNum(2)), VNum(1), VNum(1.00001))
+	b := VArr(VObj("id", VNum(2), "k", VNum(1), "v", VNum(2)), VNum(1.00001), VObj("id", VNum(1), "k", VNum(2), "v", VNum(9)), VNum(1))
+	out := []*cliCfg{}
+	for _, bin := range [][2]string{{"v2jd", ""}, {"top", ""}, {"top", "false"}} {
+		for _, opt := range []func(c *cliCfg){
+			func(c *cliCfg) { c.Setkeys = "id,k" },
+			func(c *cliCfg) { c.Setkeys = " id , k" },
+			func(c *cliCfg) { c.Setkeys = "id ,\tk " },
+			func(c *cliCfg) { c.Set = true },
+			func(c *cliCfg) { c.Mset = true },
+			func(c *cliCfg) { c.Prec = "0.001" },
+		} {
+			for _, f := range []string{"", "patch", "merge"} {
+				c := &cliCfg{Bin: bin[0], V2: bin[1], Kind: "diff", F: f}
+				opt(c)
+				if f == "patch" && (c.Set || c.Mset || c.Setkeys != "") {
+					continue // set paths are not expressible as JSON Pointers: exercised by the random part
+				}
+				cliSetDocs(c, a, b)
+				c.Args = []cliArg{{Content: cliJSON(a)}, {Content: cliJSON(b)}}
+				out = append(out, c)
+			}
+		}
+	}
+	return out
 }
 
 func init() {
